@@ -79,9 +79,9 @@ func NewBranchDispatcher(re *syntax.Regexp) *BranchDispatcher {
 		}
 
 		if fb.Count() == 0 {
-			// Branch can match empty (like ^ or empty alternative)
-			canMatchEmpty = true
-			continue
+			// Branch can match empty (like ^ or empty alternative): the
+			// first byte then decides nothing.
+			return nil
 		}
 
 		// Check for overlap with previous branches
@@ -104,6 +104,40 @@ func NewBranchDispatcher(re *syntax.Regexp) *BranchDispatcher {
 		branches:       branches,
 		branchMatchers: branchMatchers,
 		canMatchEmpty:  canMatchEmpty,
+	}
+}
+
+// isExactDispatchBranch reports whether buildBranchMatcher implements the
+// branch completely: a case-sensitive ASCII literal or a greedy char_class+
+// over ASCII ranges, optionally wrapped in one capture group.
+func isExactDispatchBranch(re *syntax.Regexp) bool {
+	if re.Op == syntax.OpCapture && len(re.Sub) == 1 {
+		re = re.Sub[0]
+	}
+	switch re.Op {
+	case syntax.OpLiteral:
+		if re.Flags&syntax.FoldCase != 0 || len(re.Rune) == 0 {
+			return false
+		}
+		for _, r := range re.Rune {
+			if r > 127 {
+				return false
+			}
+		}
+		return true
+	case syntax.OpPlus:
+		if re.Flags&syntax.NonGreedy != 0 || len(re.Sub) != 1 || re.Sub[0].Op != syntax.OpCharClass {
+			return false
+		}
+		cc := re.Sub[0]
+		for i := 0; i+1 < len(cc.Rune); i += 2 {
+			if cc.Rune[i+1] > 127 {
+				return false
+			}
+		}
+		return len(cc.Rune) > 0
+	default:
+		return false
 	}
 }
 
@@ -290,8 +324,9 @@ func IsBranchDispatchPattern(re *syntax.Regexp) bool {
 		return false
 	}
 
-	// Must be concatenation starting with ^ anchor
-	if re.Op != syntax.OpConcat || len(re.Sub) < 2 {
+	// Must be exactly ^ followed by the alternation: the dispatcher matches
+	// nothing but the alternation, so no other element may precede or follow it.
+	if re.Op != syntax.OpConcat || len(re.Sub) != 2 {
 		return false
 	}
 
@@ -308,6 +343,13 @@ func IsBranchDispatchPattern(re *syntax.Regexp) bool {
 			inner = sub.Sub[0]
 		}
 		if inner.Op == syntax.OpAlternate {
+			// The per-branch matchers are exact only for ASCII literals and
+			// greedy ASCII char_class+; anything else needs a general engine.
+			for _, branch := range inner.Sub {
+				if !isExactDispatchBranch(branch) {
+					return false
+				}
+			}
 			// Try to build dispatcher - if it succeeds, pattern is suitable
 			dispatcher := NewBranchDispatcher(sub)
 			return dispatcher != nil
